@@ -12,6 +12,7 @@ import (
 	"sigs.k8s.io/controller-runtime/pkg/client"
 	gatewayv1 "sigs.k8s.io/gateway-api/apis/v1"
 	gatewayv1alpha2 "sigs.k8s.io/gateway-api/apis/v1alpha2"
+	gatewayv1alpha3 "sigs.k8s.io/gateway-api/apis/v1alpha3"
 
 	ngfAPI "github.com/nginx/nginx-gateway-fabric/apis/v1alpha1"
 	ngfAPIv2 "github.com/nginx/nginx-gateway-fabric/apis/v1alpha2"
@@ -256,7 +257,131 @@ func directed() map[string]*History {
 	// restart in the middle
 	add("restart-after-dropped-delete", base(), del(es0), cut, Op{Op: "restart"},
 		Op{Op: "u", Key: p.KeyOf(es0), Obj: es0, Label: "create"}, cut)
+	specialDirected(add, base, ns, gc, gw, route, svc0, es0, sec, upd, del, create, cut)
 	return hs
+}
+
+// ngfObjects: the objects the handler singles out (objectFilters) in ORDINARY roles: the Service that fronts the NGF
+// Pod (gatewayPodConfig.Namespace/ServiceName) is also the backend of a route; the NginxGateway control-plane
+// configuration object of this controller.
+func ngfObjects() (nsNGF *apiv1.Namespace, ngfSvc *apiv1.Service, esNGF *discoveryV1.EndpointSlice, routeLoop *gatewayv1.HTTPRoute, ngfCfg *ngfAPI.NginxGateway) {
+	nsNGF = p.Namespace(podConfig.Namespace, map[string]string{"kubernetes.io/metadata.name": podConfig.Namespace})
+	ngfSvc = p.Service(podConfig.Namespace, podConfig.ServiceName, 80)
+	ngfSvc.Spec.Type = apiv1.ServiceTypeLoadBalancer
+	ngfSvc.Status.LoadBalancer.Ingress = []apiv1.LoadBalancerIngress{{IP: "203.0.113.10"}}
+	esNGF = p.EndpointSlice(podConfig.Namespace, podConfig.ServiceName, "s0", []int32{80}, "10.0.2.5", "10.0.2.6")
+	routeLoop = p.HTTPRoute(podConfig.Namespace, "hr-loop", 12, []gatewayv1.ParentReference{p.ParentRef("default", "gw0", "")},
+		[]string{"loop.example.com"},
+		p.HTTPRule([]gatewayv1.HTTPRouteMatch{p.PathMatch("PathPrefix", "/")}, p.Backend{Ref: podConfig.ServiceName, Port: 80, Weight: -1}))
+	ngfCfg = &ngfAPI.NginxGateway{ObjectMeta: p.Meta(controlConfig.Namespace, controlConfig.Name, 13)}
+	ngfCfg.Spec.Logging = &ngfAPI.Logging{Level: ptr(ngfAPI.ControllerLogLevelInfo)}
+	return
+}
+
+// specialDirected: for each special object: delete + upsert, alone in a batch and mixed with ordinary events.
+func specialDirected(add func(string, []client.Object, ...Op), base func(...client.Object) []client.Object, ns func() []client.Object,
+	gc, gw, route, svc0, es0, sec client.Object,
+	upd func(client.Object, string, func(client.Object)) Op, del func(client.Object) Op, create func(client.Object) Op, cut Op) {
+	nsNGF, ngfSvc, esNGF, routeLoop, ngfCfg := ngfObjects()
+	full := func(extra ...client.Object) []client.Object {
+		return append(base(nsNGF, ngfSvc, esNGF, routeLoop), extra...)
+	}
+	// --- the front Service as a Route backend
+	add("front-svc-backend-deleted", full(), del(ngfSvc), cut)
+	add("front-svc-backend-created-later", base(nsNGF, esNGF, routeLoop), create(ngfSvc), cut)
+	otherPorts := ngfSvc.DeepCopy()
+	otherPorts.Spec.Ports = []apiv1.ServicePort{{Name: "p8080", Port: 8080, TargetPort: intstr.FromInt32(8080), Protocol: apiv1.ProtocolTCP}}
+	add("front-svc-backend-deleted-recreated-other-ports", full(), del(ngfSvc), cut, create(otherPorts), cut)
+	add("front-svc-backend-deleted-recreated-same", full(), del(ngfSvc), cut, create(ngfSvc), cut)
+	add("front-svc-backend-deleted-recreated-one-batch", full(), del(ngfSvc), create(otherPorts), cut)
+	add("front-svc-backend-port-changed", full(), upd(ngfSvc, "svc-port", func(o client.Object) { o.(*apiv1.Service).Spec.Ports[0].Port = 81 }), cut)
+	add("front-svc-backend-targetport-changed", full(), upd(ngfSvc, "svc-targetport", func(o client.Object) {
+		o.(*apiv1.Service).Spec.Ports[0].TargetPort = intstr.FromInt32(9999)
+	}), cut)
+	add("front-svc-backend-port-renamed", full(), upd(ngfSvc, "svc-portname", func(o client.Object) { o.(*apiv1.Service).Spec.Ports[0].Name = "web" }), cut)
+	add("front-svc-backend-deleted-mixed-batch", full(),
+		upd(es0, "es-empty", func(o client.Object) { o.(*discoveryV1.EndpointSlice).Endpoints = nil }), del(ngfSvc),
+		upd(sec, "annotation", func(o client.Object) { o.SetAnnotations(map[string]string{"verif/touched": "1"}) }), cut)
+	add("front-svc-backend-deleted-after-irrelevant-batch", full(), upd(sec, "annotation", func(o client.Object) {
+		o.SetAnnotations(map[string]string{"verif/touched": "1"})
+	}), cut, del(ngfSvc), cut)
+	add("front-svc-backend-route-created-later", base(nsNGF, ngfSvc, esNGF), create(routeLoop), cut, del(ngfSvc), cut)
+	add("front-svc-backend-restart-then-deleted", full(), Op{Op: "restart"}, del(ngfSvc), cut)
+	// --- the front Service in its own role only (Gateway status addresses), referenced by nothing
+	newIngress := func(o client.Object) {
+		o.(*apiv1.Service).Status.LoadBalancer.Ingress = []apiv1.LoadBalancerIngress{{IP: "203.0.113.99"}, {Hostname: "lb.example.com"}}
+	}
+	toClusterIP := func(o client.Object) {
+		s := o.(*apiv1.Service)
+		s.Spec.Type, s.Status.LoadBalancer.Ingress = apiv1.ServiceTypeClusterIP, nil
+	}
+	add("front-svc-ingress-changed", base(nsNGF, ngfSvc), upd(ngfSvc, "svc-lb-ingress", newIngress), cut)
+	add("front-svc-type-changed", base(nsNGF, ngfSvc), upd(ngfSvc, "svc-lb-type", toClusterIP), cut)
+	add("front-svc-unreferenced-deleted-recreated", base(nsNGF, ngfSvc), del(ngfSvc), cut, create(ngfSvc), cut)
+	add("front-svc-created-later", base(nsNGF), create(ngfSvc), cut)
+	// … and both roles at once
+	add("front-svc-backend-ingress-changed", full(), upd(ngfSvc, "svc-lb-ingress", newIngress), cut)
+	add("front-svc-backend-type-changed", full(), upd(ngfSvc, "svc-lb-type", toClusterIP), cut)
+	add("front-svc-backend-ingress-changed-mixed-batch", full(), upd(ngfSvc, "svc-lb-ingress", newIngress), del(es0), cut)
+	// an object of ANOTHER kind with the front Service's name (the filter key carries the type)
+	secLike := p.TLSSecret(podConfig.Namespace, podConfig.ServiceName, 2)
+	gwSecLike := gw.DeepCopyObject().(*gatewayv1.Gateway)
+	for i := range gwSecLike.Spec.Listeners {
+		if gwSecLike.Spec.Listeners[i].TLS != nil && len(gwSecLike.Spec.Listeners[i].TLS.CertificateRefs) > 0 {
+			gwSecLike.Spec.Listeners[i].TLS.CertificateRefs[0].Name = gatewayv1.ObjectName(podConfig.ServiceName)
+			gwSecLike.Spec.Listeners[i].TLS.CertificateRefs[0].Namespace = ptr(gatewayv1.Namespace(podConfig.Namespace))
+		}
+	}
+	grantSec := p.ReferenceGrant(podConfig.Namespace, "rg-sec", []p.GrantFrom{{Group: "gateway.networking.k8s.io", Kind: "Gateway", Namespace: "default"}},
+		[]p.GrantTo{{Kind: "Secret"}})
+	add("secret-named-like-front-svc", append(ns(), nsNGF, gc, gwSecLike, route, svc0, es0, sec, grantSec, secLike, ngfSvc),
+		del(secLike), cut, create(secLike), cut, del(ngfSvc), cut)
+	// --- the NginxGateway control-plane configuration object
+	level := func(l string) func(client.Object) {
+		return func(o client.Object) { o.(*ngfAPI.NginxGateway).Spec.Logging = &ngfAPI.Logging{Level: ptr(ngfAPI.ControllerLogLevel(l))} }
+	}
+	add("control-config-created", base(nsNGF), create(ngfCfg), cut)
+	add("control-config-updated", base(nsNGF, ngfCfg), upd(ngfCfg, "ng-loglevel", level("debug")), cut)
+	add("control-config-invalid-level", base(nsNGF, ngfCfg), upd(ngfCfg, "ng-loglevel", level("verbose")), cut, upd(ngfCfg, "ng-loglevel", level("error")), cut)
+	add("control-config-deleted-recreated", base(nsNGF, ngfCfg), del(ngfCfg), cut, create(ngfCfg), cut)
+	add("control-config-mixed-batch", full(ngfCfg), upd(ngfCfg, "ng-loglevel", level("debug")), del(ngfSvc), del(ngfCfg), cut)
+	add("control-config-between-relevant-events", full(ngfCfg), del(es0), upd(ngfCfg, "ng-loglevel", level("error")), create(es0), cut)
+	// --- objects that are referenced while MISSING (the resolvers record the name all the same), created later / deleted and
+	// re-created across rebuilds (ReferencedCaCertConfigMaps / ReferencedSecrets / the class' NginxProxy)
+	cert, _ := p.CertPair(7)
+	cm := &apiv1.ConfigMap{ObjectMeta: p.Meta("default", "ca-bundle", 0), Data: map[string]string{"ca.crt": string(cert)}}
+	btp := &gatewayv1alpha3.BackendTLSPolicy{ObjectMeta: p.Meta("default", "btp-svc0", 15)}
+	btp.Spec.TargetRefs = []gatewayv1alpha2.LocalPolicyTargetReferenceWithSectionName{{
+		LocalPolicyTargetReference: gatewayv1alpha2.LocalPolicyTargetReference{Kind: "Service", Name: "svc0"},
+	}}
+	btp.Spec.Validation.Hostname = "backend.example.com"
+	btp.Spec.Validation.CACertificateRefs = []gatewayv1.LocalObjectReference{{Kind: "ConfigMap", Name: "ca-bundle"}}
+	add("configmap-missing-created-later", base(btp), create(cm), cut)
+	add("configmap-deleted-recreated", base(btp, cm), del(cm), cut, create(cm), cut)
+	add("configmap-missing-created-after-irrelevant-batch", base(btp), upd(sec, "annotation", func(o client.Object) {
+		o.SetAnnotations(map[string]string{"verif/touched": "1"})
+	}), cut, create(cm), cut)
+	add("configmap-policy-then-configmap", base(), create(btp), cut, create(cm), cut, del(cm), cut)
+	add("secret-missing-created-later", append(ns(), gc, gw, route, svc0, es0), create(sec), cut)
+	npLater := &ngfAPI.NginxProxy{ObjectMeta: p.Meta("", "np", 0)}
+	npLater.Spec.IPFamily = ptr(ngfAPI.IPv4)
+	gcNP := p.GatewayClass(p.DefaultClass, p.DefaultController, 1)
+	gcNP.Spec.ParametersRef = &gatewayv1.ParametersReference{Group: ngfAPI.GroupName, Kind: "NginxProxy", Name: "np"}
+	add("nginxproxy-missing-created-later", append(ns(), gcNP, gw, route, svc0, es0, sec), create(npLater), cut, del(npLater), cut)
+	// a Namespace that only an INVALID (but attachable) selector listener references
+	gwInvSel := p.Gateway("default", "gw0", p.DefaultClass, 2,
+		p.Listener{Name: "https", Port: 443, Protocol: "HTTPS", Hostname: "cafe.example.com", CertRefs: []string{"tls-missing"},
+			FromNS: "Selector", Selector: map[string]string{"team": "dev"}})
+	routeA := p.HTTPRoute("team-a", "hr-a", 5, []gatewayv1.ParentReference{p.ParentRef("default", "gw0", "")}, nil,
+		p.HTTPRule([]gatewayv1.HTTPRouteMatch{p.PathMatch("PathPrefix", "/a")}, p.Backend{Ref: "svc0", Port: 80, Weight: -1}))
+	nsA := p.Namespace("team-a", map[string]string{"kubernetes.io/metadata.name": "team-a", "team": "dev"})
+	add("namespace-invalid-listener-unlabelled-relabelled", append(ns(), gc, gwInvSel, routeA, p.Service("team-a", "svc0", 80)),
+		upd(nsA, "ns-relabel", func(o client.Object) { delete(o.(*apiv1.Namespace).Labels, "team") }), cut,
+		upd(nsA, "ns-relabel", func(o client.Object) {}), cut)
+	// another NginxGateway object: the controller's namespaced-name filter ignores it
+	otherCfg := &ngfAPI.NginxGateway{ObjectMeta: p.Meta(controlConfig.Namespace, "other-config", 14)}
+	otherCfg.Spec.Logging = &ngfAPI.Logging{Level: ptr(ngfAPI.ControllerLogLevelDebug)}
+	add("control-config-foreign-object-ignored", base(nsNGF, ngfCfg), create(otherCfg), cut, del(otherCfg), cut)
 }
 
 func emitDirected(dir string) error {
